@@ -381,3 +381,33 @@ def frame_ctor_raises(cls, stream_id_const, has_extra_kwargs=False):
     if assoc == 'has-stream':
         return set() if stream_id_const != 0 else {'InvalidDataError'}
     return {'InvalidDataError'}
+
+
+def check_flow_controlled_length():
+    """Does the installed hyperframe compute DataFrame.flow_controlled_length
+    as len(data) + (pad_length + 1 if 'PADDED' in flags else 0)?  The path
+    interpreter relies on this summary."""
+    tree = _parse('hyperframe', 'frame')
+    if tree is None:
+        notes.append('hyperframe source not found: flow_controlled_length '
+                     'summary taken from the frozen copy')
+        return None
+    cd = _class_defs(tree).get('DataFrame')
+    fn = None
+    for st in (cd.body if cd else []):
+        if isinstance(st, ast.FunctionDef) and \
+                st.name == 'flow_controlled_length':
+            fn = st
+    if fn is None:
+        notes.append('hyperframe DataFrame.flow_controlled_length not found')
+        return False
+    body = [s for s in fn.body if not (
+        isinstance(s, ast.Expr) and isinstance(s.value, ast.Constant))]
+    got = ';'.join(ast.unparse(s).replace('"', "'") for s in body)
+    exp = ("padding_len = 0;if 'PADDED' in self.flags:\n    padding_len = "
+           "self.pad_length + 1;return len(self.data) + padding_len")
+    if got != exp:
+        notes.append('hyperframe flow_controlled_length differs from the '
+                     'summary used: %s' % got)
+        return False
+    return True
